@@ -88,6 +88,7 @@ def main():
                     apply_mutant(os.path.join(mdir, fn), d)
                 except Exception as e:   # noqa
                     rows.append((prop, fn, "MUTANT-DOES-NOT-APPLY", str(e)[:80], 0))
+                    print("{:4s} {:40s} MUTANT-DOES-NOT-APPLY {}".format(prop, fn, str(e)[:100]))
                     bad += 1
                     continue
                 env = dict(os.environ, VERIF_REPO=d)
